@@ -474,6 +474,8 @@ impl Primitive {
     pub fn lookup(self, property: &str) -> Result<std::result::Result<PrimitiveFlagsPair, Self>> {
         use Primitive as P;
         match self.move_out_of_heap_primitive()? {
+            // a present optional is the value it holds
+            P::Optional(Some(ref inner)) => inner.as_ref().clone().lookup(property),
             ret @ P::Object(..) => {
                 let P::Object(ref obj) = ret else {
                     unreachable!()
